@@ -6,6 +6,7 @@
 package main
 
 import (
+	"log/slog"
 	"bytes"
 	"encoding/json"
 	"errors"
@@ -262,15 +263,23 @@ func vClientHello(k vKey, target string, payload []byte) []byte {
 // vDial connects from a local port this process has never used before, so that the client address identifies
 // the connection in the metrics records even if the kernel would recycle ephemeral ports.
 var vNextPort = 33000 + (os.Getpid()*131)%20000
+var vPortMu sync.Mutex
+
+// vFreshPort: the next local port number nobody in this process has used yet (several client goroutines draw from it)
+func vFreshPort() int {
+	vPortMu.Lock()
+	defer vPortMu.Unlock()
+	vNextPort++
+	if vNextPort > 60000 {
+		vNextPort = 33000
+	}
+	return vNextPort
+}
 
 func vDial(addr string) (net.Conn, error) {
 	var err error
 	for i := 0; i < 200; i++ {
-		vNextPort++
-		if vNextPort > 60000 {
-			vNextPort = 33000
-		}
-		d := net.Dialer{Timeout: 4 * time.Second, LocalAddr: &net.TCPAddr{IP: net.ParseIP("127.0.0.1"), Port: vNextPort}}
+		d := net.Dialer{Timeout: 4 * time.Second, LocalAddr: &net.TCPAddr{IP: net.ParseIP("127.0.0.1"), Port: vFreshPort()}}
 		var c net.Conn
 		c, err = d.Dial("tcp", addr)
 		if err == nil || errors.Is(err, syscall.ECONNREFUSED) {
@@ -295,11 +304,7 @@ func vDialUDP(addr string) (*net.UDPConn, error) {
 		return nil, err
 	}
 	for i := 0; i < 200; i++ {
-		vNextPort++
-		if vNextPort > 60000 {
-			vNextPort = 33000
-		}
-		c, e := net.DialUDP("udp", &net.UDPAddr{IP: net.ParseIP("127.0.0.1"), Port: vNextPort}, ra)
+		c, e := net.DialUDP("udp", &net.UDPAddr{IP: net.ParseIP("127.0.0.1"), Port: vFreshPort()}, ra)
 		if e == nil {
 			return c, nil
 		}
@@ -550,6 +555,16 @@ func (h *vHarness) holdForeign(frn [][]interface{}) []io.Closer {
 
 // newServer builds the server the way main() does: RunOutlineServer with a first configuration that has no services
 // (the harness does not depend on the fields of OutlineServer).  That first load is part of the trace.
+// vSetLogging: every second scenario runs with debug logging (what -verbose does): debug statements format errors and
+// values that the default level never touches.  The output is discarded.
+func vSetLogging(scenario int) {
+	lvl := slog.LevelInfo
+	if scenario%2 == 0 {
+		lvl = slog.LevelDebug
+	}
+	slog.SetDefault(slog.New(slog.NewTextHandler(io.Discard, &slog.HandlerOptions{Level: lvl})))
+}
+
 func (h *vHarness) newServer(m *vMetrics, replay int) *OutlineServer {
 	empty := vCfg{Kind: "ok"}
 	f := filepath.Join(h.dir, "cfg-empty.yml")
@@ -565,6 +580,7 @@ func (h *vHarness) newServer(m *vMetrics, replay int) *OutlineServer {
 func (h *vHarness) runScenario(sc vScenario) {
 	m := newVMetrics()
 	h.emit(map[string]any{"ev": "Scenario", "id": sc.ID, "replay": sc.Replay})
+	vSetLogging(sc.ID)
 	server := h.newServer(m, sc.Replay)
 	if server == nil {
 		return
